@@ -520,6 +520,7 @@ def mangled_declaration_rule(ctx):
     tc = ctx.tc
     obs = []
     k = 0
+    per_site = {}
     for f in tc.fns:
         if not f.body or "stringify" not in f.module or f.name == "add_scope":
             continue
@@ -537,12 +538,27 @@ def mangled_declaration_rule(ctx):
                 cur, up = up, pm.get(id(up))
             discarded = up is not None and up.get("k") == "expr"
             arg = sir.expr_str(sir.strip_ref(n["args"][0]))
-            what = re.sub(r"[^A-Za-z0-9_.]+", "", arg)
-            obs.append(ob("C14.scope/declared-as-returned/%s/%s" % (f.qual.split("::")[-2] + "::" + f.qual.split("::")[-1], what), not discarded, ctx.where(f),
-                          "scope `%s`: the name returned by add_scope %s" % (arg, "is kept for printing the declaration" if not discarded else "is discarded - the declaration is printed with the source name while references print the mangled one"),
-                          witness=None if not discarded else "with mangling, `<div wx:for=\"{{l}}\">{{item}}</div>` prints `{{_$0}}` under an unrenamed `wx:for`: the re-parsed template reads a data field `_$0`"))
-    if k < 3:
-        obs.append(ob("C14.floor/add_scope", False, "stringify/tag.rs", "only %d add_scope calls found (floor 3)" % k))
+            # keyed by the kind of element whose scopes are registered (the arm of the element-kind match the call sits in), so
+            # that the same site is the same finding however its operands are spelled; outside such a match, by the operand
+            what = None
+            cur = n
+            while id(cur) in pm and what is None:
+                cur = pm[id(cur)]
+                if cur.get("k") == "arm":
+                    vs = [v_ for v_ in sir.pat_variants(cur["pat"]) if sir.pat_str(cur["pat"]).startswith("ElementKind::")]
+                    if vs:
+                        what = "+".join(sorted(vs))
+            if what is None:
+                what = re.sub(r"[^A-Za-z0-9_.]+", "", arg)
+            per_site.setdefault((f.qual.split("::")[-2] + "::" + f.qual.split("::")[-1], what), []).append((discarded, arg, f))
+    for (fq, what), rows in sorted(per_site.items()):
+        bad_ = [a_ for d_, a_, _f in rows if d_]
+        f = rows[0][2]
+        obs.append(ob("C14.scope/declared-as-returned/%s/%s" % (fq, what), not bad_, ctx.where(f),
+                      "scope%s %s: the name returned by add_scope %s" % ("s" if len(rows) > 1 else "", ", ".join("`%s`" % a_ for _d, a_, _f in rows), "is kept for printing the declaration" if not bad_ else "is discarded (%s) - the declaration is printed with the source name while references print the mangled one" % ", ".join(bad_)),
+                      witness=None if not bad_ else "with mangling, `<div wx:for=\"{{l}}\">{{item}}</div>` prints `{{_$0}}` under an unrenamed `wx:for`: the re-parsed template reads a data field `_$0`"))
+    if k < 2:
+        obs.append(ob("C14.floor/add_scope", False, "stringify/tag.rs", "only %d add_scope calls found (floor 2)" % k))
     return obs
 
 
@@ -576,6 +592,8 @@ def wave9_rules(ctx):
         obs.append(ob("C14.attrs/for-defaults", None, "stringify/tag.rs", "parser defaults %s / printer arm (%d found) not in a form this rule reads" % (defaults, len(arms))))
     else:
         f, a = arms[0]
+        aw = [(sir.call_name(x) or "").split("::")[-1] for x in sir.walk(a["body"]) if x.get("k") in ("call", "mcall") and any(y.get("k") == "lit" and y.get("v") in ("wx:for-item", "wx:key") for y in x["args"])]
+        attr_writer = aw[0] if aw else None
 
         def hooks(it, e, st):
             if e.get("k") in ("call", "mcall"):
@@ -585,6 +603,13 @@ def wave9_rules(ctx):
                 lits = [x["v"] for x in e["args"] if x.get("k") == "lit" and x.get("t") == "str"]
                 if lits and lits[0] in ("wx:for-item", "wx:for-index"):
                     return [(("Ok", ai.UNIT), st.event(("attr", lits[0])))]
+                if nm == attr_writer and not lits:
+                    # the attribute name is a value (a row of a table): it is evaluated
+                    for a_ in e["args"]:
+                        vs_ = [o.value for o in it.ev(a_, st) if o.kind == "val"]
+                        if len(vs_) == 1 and vs_[0] in ("wx:for-item", "wx:for-index"):
+                            return [(("Ok", ai.UNIT), st.event(("attr", vs_[0])))]
+                    return [(("Ok", ai.UNIT), st.taint())]
                 if any(g.name == nm and g.body for g in tc.fns):
                     g = [g for g in tc.fns if g.name == nm and g.body][0]
                     if (g.ret or "").replace(" ", "") == "bool":
@@ -603,7 +628,7 @@ def wave9_rules(ctx):
                     outs = [o for o in it.run(a["body"], env) if ("$error-exit",) not in o.events]
                 except ai.TooManyPaths:
                     outs = []
-                if not outs or any(o.tainted for o in outs):
+                if not outs or any(o.tainted or o.approx for o in outs):
                     und = True
                     continue
                 want = (["wx:for-item"] if iv != defaults["item_name"] else []) + (["wx:for-index"] if xv != defaults["index_name"] else [])
